@@ -91,6 +91,10 @@ func buildTree(root string) error {
 	files := map[string]string{
 		"outside.gr": "", "a.gr": "", ".gr": "", "Z.gr": "",
 		"cwd/ok.gr": "", "cwd/.hidden.gr": "", "cwd/sub/inner.gr": "", "cwd/sub/a.gr": "", "cwd/a.txt": "",
+		// a directory where the file of an allowed name would go: save("aZ") must fail and leave nothing behind
+		"cwd/aZ.gr/keep.txt": "",
+		// targets for image names that look like paths
+		"outside/victim.png": "", "cwd/sub/inner.png": "",
 	}
 	for rel := range files {
 		p := filepath.Join(root, rel)
@@ -198,7 +202,9 @@ func childMain(raw json.RawMessage) int {
 	_, re := evalIn(`run("true")`)
 	out.RunErr = strings.Join(re, " | ")
 	before := snapshot(root)
-	evalIn(`image.new("i", 2, 2); image.save("i")`)
+	for _, img := range []string{"i", "a.png", "../outside/victim.png", "../outside/new.png", "sub/inner.png", "../a.gr", ".gr", "grol.png", "x/../../outside/victim.png"} {
+		evalIn("image.new(" + val.StrSrc(img) + ", 2, 2); image.save(" + val.StrSrc(img) + ")")
+	}
 	after := snapshot(root)
 	if d := diffSnap(before, after); d != "" {
 		out.ImageNew = strings.Split(d, "; ")
@@ -254,6 +260,8 @@ func accepted(cfg Config, name string) (file string, ok bool) {
 	return stem + ".gr", ok
 }
 
+const dirTarget = "aZ.gr" // see buildTree
+
 type Case struct {
 	Cfg   Config   `json:"cfg"`
 	Names [][]byte `json:"names"`
@@ -278,6 +286,16 @@ func judge(cfg Config, names [][]byte, out ChildOut) error {
 			}
 			if r.TreeDelta != "" {
 				return fmt.Errorf("[%s] save(%q)/load(%q) changed the file system: %s", cfg.Name, name, name, r.TreeDelta)
+			}
+			continue
+		}
+		if ok && file == dirTarget {
+			// the name is allowed but its file cannot be created: the save fails and leaves nothing behind
+			if saveAccepted {
+				return fmt.Errorf("[%s] save(%q) reports success although cwd/%s is a directory (output %q)", cfg.Name, name, file, r.SaveOut)
+			}
+			if r.TreeDelta != "" {
+				return fmt.Errorf("[%s] the failed save(%q) (cwd/%s is a directory) changed the file system: %s", cfg.Name, name, file, r.TreeDelta)
 			}
 			continue
 		}
